@@ -794,6 +794,103 @@ def impl_cells(batch):
 
 # ------------------------------------------------------------------------------------------------ run
 
+# ---- sizes given as expressions (Literal): whatever the PDK does to a given size, it does it to the whole expression
+LIT_EXPRS = ["a", "a+b", "a-b", "2*a+b", "b+a*c", "-a+b", "a/b+c"]
+LIT_ENV = {"a": Fraction(3, 7), "b": Fraction(5, 11), "c": Fraction(13, 3)}
+
+
+def lit_eval(text):
+    """Value of an arithmetic expression over a, b, c (numbers, + - * /, parentheses), exactly."""
+    import ast
+    from decimal import Decimal
+
+    def ev(n):
+        if isinstance(n, ast.Expression):
+            return ev(n.body)
+        if isinstance(n, ast.BinOp) and isinstance(n.op, (ast.Add, ast.Sub, ast.Mult, ast.Div)):
+            x, y = ev(n.left), ev(n.right)
+            return {ast.Add: x + y, ast.Sub: x - y, ast.Mult: x * y, ast.Div: x / y if y else None}[type(n.op)]
+        if isinstance(n, ast.UnaryOp) and isinstance(n.op, (ast.USub, ast.UAdd)):
+            return -ev(n.operand) if isinstance(n.op, ast.USub) else ev(n.operand)
+        if isinstance(n, ast.Name) and n.id in LIT_ENV:
+            return LIT_ENV[n.id]
+        if isinstance(n, ast.Constant) and isinstance(n.value, (int, float)) and not isinstance(n.value, bool):
+            return Fraction(Decimal(repr(n.value)))
+        raise ValueError(f"not arithmetic: {ast.dump(n)[:80]}")
+    return ev(ast.parse(text.strip(), mode="eval"))
+
+
+def literal_size_cases(tables):
+    cases = []
+    for pdk in ("sky130", "gf180"):
+        t = tables[pdk]
+        specs = [{"prim": "Mos", "tp": tp, "vth": vth, "fam": fam} for tp, vth, fam in (("NMOS", "STD", "CORE"), ("PMOS", "LOW", "CORE"), ("NMOS", "STD", "NONE"), ("PMOS", "STD", "IO"))]
+        for table, prim in (("ress", "PhysicalResistor"), ("caps", "PhysicalCapacitor"), ("diodes", "Diode")):
+            specs += [{"prim": prim, "model": e["key"]} for e in t[table][:2]]
+        for spec in specs:
+            for field in ("w", "l"):
+                cases.append({"pdk": pdk, "spec": spec, "field": field})
+    return cases
+
+
+def impl_literal_sizes(case):
+    """The same request with the size `field` given as each of LIT_EXPRS: the text of that parameter on the compiled device."""
+    import hdl21.primitives as hp
+    spec, out = case["spec"], {}
+    pdk = pdk_module(case["pdk"])
+    for expr in LIT_EXPRS:
+        kw = {case["field"]: h.Literal(expr)}
+        if spec.get("model"):
+            kw["model"] = spec["model"]
+        for f, en in (("tp", hp.MosType), ("vth", hp.MosVth), ("fam", hp.MosFamily)):
+            if spec.get(f):
+                kw["family" if f == "fam" else f] = en[spec[f]]
+        try:
+            call = getattr(hp, spec["prim"])(**kw)
+            m = h.Module(name="DutL")
+            conns = {}
+            for p in call.prim.port_list:
+                setattr(m, "s_" + p.name, h.Signal())
+                conns[p.name] = getattr(m, "s_" + p.name)
+            m.x = call(**conns)
+            pdk.compile(m)
+            params = m.x.of.params
+            params = params if isinstance(params, dict) else {k: getattr(params, k) for k in getattr(params, "__dataclass_fields__", {})}
+            # the device's parameter that carries the expression (a PDK may call it w, l, or something else)
+            lits = {k: v.text for k, v in params.items() if isinstance(v, h.Literal) and any(ch in v.text for ch in "abc")}
+            out[expr] = {"lits": lits}
+        except Exception as ex:  # noqa
+            out[expr] = {"refused": common.errstr(ex)}
+    return out
+
+
+def judge_literal_sizes(case, im):
+    base = im.get("a", {})
+    if "lits" not in base or len(base["lits"]) != 1:
+        return          # the PDK does not take this size as an expression (or spreads it over several parameters): nothing to compare
+    (pname, btxt), = base["lits"].items()
+    try:
+        k = lit_eval(btxt) / LIT_ENV["a"]     # what the PDK does to a given size: a factor
+    except Exception:  # noqa
+        return
+    for expr in LIT_EXPRS[1:]:
+        r = im.get(expr, {})
+        if "lits" not in r:
+            yield ("pred", f"size {case['field']}=Literal({expr!r}) refused where Literal('a') compiles: {r.get('refused')}")
+            continue
+        if pname not in r["lits"]:
+            yield ("pred", f"size {case['field']}=Literal({expr!r}): the device's `{pname}` no longer carries the expression: {r['lits']}")
+            continue
+        try:
+            got = lit_eval(r["lits"][pname])
+        except Exception as ex:  # noqa
+            continue            # a spelling this evaluator does not read: no verdict
+        want = k * lit_eval(expr)
+        if got != want:
+            yield ("pred", {"why": f"the given size is not preserved: {case['field']}=Literal({expr!r}) compiles to {pname}={r['lits'][pname]!r}, which is {float(got):.6g} at a=3/7, b=5/11, c=13/3; "
+                                   f"the whole expression scaled as a single name is scaled ({float(k):.6g}x) would be {float(want):.6g}"})
+
+
 def load_tables():
     p = subprocess.run([sys.executable, os.path.join(os.path.dirname(os.path.dirname(os.path.abspath(__file__))), "dump_pdk_tables.py")], capture_output=True, text=True, timeout=300)
     return json.loads(p.stdout.strip().splitlines()[-1])
@@ -819,6 +916,15 @@ def run(ctx):
         rep.count("tables", json.dumps(c), nontrivial="of" in im)
         for kind, detail, fkey in judge_single(c, im, mo, tables):
             rep.fail(kind, {"stream": "tables", "case": c}, {"detail": detail, "refused": im.get("refused")}, finding_key=fkey)
+    # ---- sizes given as expressions
+    lc = literal_size_cases(tables)
+    stats["literal_sizes"] = {"cases": len(lc), "compared": 0}
+    for c, im in zip(lc, common.pmap(impl_literal_sizes, lc, chunk=2)):
+        compared = "lits" in im.get("a", {}) and len(im["a"]["lits"]) == 1
+        stats["literal_sizes"]["compared"] += compared
+        rep.count("literal_sizes", json.dumps(c), nontrivial=compared)
+        for kind, detail in judge_literal_sizes(c, im) or []:
+            rep.fail(kind, {"stream": "literal_sizes", "case": c}, {"detail": detail})
     rep.extra["exhaustive"] = False  # only the tables stream is; see exhaustive_part
     rep.extra["exhaustive_part"] = "tables stream: every table entry and every triple (the hierarchy, registry and cells streams are sampled)"
     # ---- hierarchy
